@@ -25,6 +25,10 @@ CLAIMED = {
         text='Deductive proof over the real text of calc_single, StructLayout::new, padding_needed_for, stride, align_shift: every write to the layout tables satisfies the C17 clauses (alignment power of two <= 8, C struct offsets, array = len*stride, distinct/variant = underlying, ?ptr = ptr, tag after largest payload) for all types in the stated domain.',
         note='Trusted: global table modelled rely/guarantee (reads return what calc_single wrote), Intern canonicity, listed rewrites. Domain: language int/float widths, nested sizes <= 1 GiB. The host C compiler comparison is not part of the proof.',
         ref='DESIGN.md 5 (C17)'),
+    'C18': dict(
+        text='Deductive proof over the real text of simple_id, simple_id_with_align, UIDGenerator::generate_unique_id and the id-assigning match of to_type_id: for every type, the runtime type id decodes (with the masks core/src/meta.capy uses) to the kind, size, alignment and sign/mutability flag of the layout tables; compound ids carry their kind and a fresh index; ids of simple types are injective -- except isize/i64 and usize/u64, a recorded known finding.',
+        note='Partial: type-id clause only. compile_meta_builtins (the data reflection reads), core/src/meta.capy and `any` are not under contract; the memo lookup of to_type_id (iterator find) is assumed; recursive calls are stubs.',
+        ref='DESIGN.md 5 (C18)'),
     'C25': dict(
         text='Deductive proof over the real text of LineIndex::line_col, Index<LineNr>::index and the Sub impls: for every text, every index built from it and every offset in it, line = number of newlines before the offset and column = offset - start of that line; no underflow, no out-of-bounds.',
         note='Partial: LineIndex::new (iterator chain) is assumed to build the index (index_wf); TextSize modelled as u32; std partition_point contract assumed; the "file:line:col" rendering is not under contract.',
@@ -56,7 +60,6 @@ NOT_APPLICABLE = {
 PENDING = {
     'C10': 'unit not built yet (index / #unwrap guards)',
     'C13': 'unit not built yet (nominal arms of can_fit_into / max)',
-    'C18': 'unit not built yet (type-id packing)',
     'C19': 'unit not built yet (SysV classification)',
     'C25': 'unit not built yet (LineIndex::line_col)',
     'C26': 'unit not built yet (TopoSort representation invariant)',
